@@ -60,7 +60,10 @@ RULE_ADDED = (
               'after a link failure), version requests spread among the device requests. '
               ' '
               'Round 13: rounds in which the client of a long request hangs up while it is bein'
-              'g served and others are queueing. ')
+              'g served and others are queueing. '
+              ' '
+              'Round 14: rounds with the manager in legacy (--version-one) mode, plain and with'
+              ' a link failure. ')
 RULE = RULE + " " + RULE_ADDED.strip()
 ASSUMPTIONS = [
     "schedules are those the OS produces under injected device delays; not enumerated",
